@@ -57,10 +57,13 @@ Definition kind_ok (k : kind) (p : cpc) : bool :=
 Definition ctl_ok (k : kind) (p : cpc) (h : phase) : bool :=
   (match p with CRecv _ b => match h with PRun => true | PDrain => b | _ => false end | _ => true end) &&
   (match p with CTakeE _ => is_perr h | _ => true end) &&
-  (match p with CLenR => is_run h | _ => true end) &&
+  (match p with CLenR | CSetErr _ => is_run h | _ => true end) &&
   (match dk_chain p with Some (DRead _) | Some DFinish => is_run h | _ => true end) &&
   (match h with PDrain | PFin => quiet_pc k p | _ => true end) &&
-  (match p, h with CRecv KDrain b, PRun => negb b | _, _ => true end) &&
+  (match p, h with
+   | CRecv g b, PRun => match g with KRead => true | KDrain => negb b | KFinish => false | _ => b end
+   | _, _ => true
+   end) &&
   (match gk_of p, h with Some KFinish, PRun => false | _, _ => true end) &&
   kind_ok k p.
 
